@@ -213,7 +213,7 @@ int cmdWalk(int argc, char** argv) {
 				fclose(mark);
 				return 0;
 			},
-			3000, why);
+			3000, why, 8192);
 		if (rc == 0) break;
 		// crashed: attribute to the marked edge, log it, and continue after it
 		size_t pos = 0;
